@@ -4,7 +4,7 @@ import QrlewModel.Model.ExprImg
 /-!
 # C06 — range propagation through whole arithmetic expressions, on the concrete model
 
-`Qrlew.ExprImg.image` composes the models of the partitioned-monotonic images of `+`, `-`, `*` (each compared with the real
+`Qrlew.ExprImg.image` composes the models of the partitioned-monotonic images of `+`, `-`, `*`, `greatest`, `least` (each compared with the real
 function by the `fnimg` stream) the way `Expr::super_image` does, and is itself compared with the real `Expr::super_image` on
 random expression trees by the `exprimg` stream.  `arith_expr_sound`: for every expression tree (any shape and depth), every
 family of column types (unions of intervals) and every row whose cells lie in their column's type, the value of the expression
@@ -25,6 +25,8 @@ def LitsInRange : AE → Prop
   | .plus a b => LitsInRange a ∧ LitsInRange b
   | .minus a b => LitsInRange a ∧ LitsInRange b
   | .mul a b => LitsInRange a ∧ LitsInRange b
+  | .greatest a b => LitsInRange a ∧ LitsInRange b
+  | .least a b => LitsInRange a ∧ LitsInRange b
 
 /-- **C06 for every arithmetic expression**: value ∈ propagated range (together with the two invariants the induction needs:
 the propagated range is a well-formed interval set within capacity, and the value fits in an i64). -/
@@ -45,6 +47,16 @@ theorem arith_expr_sound (cap : Nat) (hc : 2 ≤ cap) (tys : Nat → Ivs) (hty :
     obtain ⟨ma, ga, ra⟩ := arith_expr_sound cap hc tys hty env henv hrange a h.1
     obtain ⟨mb, gb, rb⟩ := arith_expr_sound cap hc tys hty env henv hrange b h.2
     exact ⟨mul_sound cap hc _ _ ga gb _ _ ma mb ra rb, C10.pmImage2_good cap hc _ _ _ _, sat_inRange _⟩
+  | .greatest a b, h => by
+    obtain ⟨ma, ga, ra⟩ := arith_expr_sound cap hc tys hty env henv hrange a h.1
+    obtain ⟨mb, gb, rb⟩ := arith_expr_sound cap hc tys hty env henv hrange b h.2
+    refine ⟨C10.greatest_sound cap hc _ _ ga gb _ _ ma mb ra rb, C10.pmImage2_good cap hc _ _ _ _, ?_⟩
+    unfold InRange at *; simp only [eval]; omega
+  | .least a b, h => by
+    obtain ⟨ma, ga, ra⟩ := arith_expr_sound cap hc tys hty env henv hrange a h.1
+    obtain ⟨mb, gb, rb⟩ := arith_expr_sound cap hc tys hty env henv hrange b h.2
+    refine ⟨C10.least_sound cap hc _ _ ga gb _ _ ma mb ra rb, C10.pmImage2_good cap hc _ _ _ _, ?_⟩
+    unfold InRange at *; simp only [eval]; omega
 
 /-- non-vacuity: `(c0 + c0) * c1 - 3` with `c0 ∈ [1, 2] ∪ [5, 5]`, `c1 ∈ [-1, 4]` at the row `(5, -1)` -/
 example :
